@@ -767,7 +767,12 @@ impl<'a> Pretty<'a, Allocator> for &RecordPattern<'_> {
                             allocator.nil()
                         },
                         match &field_pat.pattern.data {
-                            PatternData::Any(id) if *id == field_pat.matched_id => allocator.nil(),
+                            PatternData::Any(id)
+                                if *id == field_pat.matched_id
+                                    && field_pat.pattern.alias.is_none() =>
+                            {
+                                allocator.nil()
+                            }
                             _ => docs![allocator, allocator.line(), "= ", &field_pat.pattern],
                         },
                         ","
